@@ -386,22 +386,31 @@ def run_ego(sd, ego, cases, chunk, tag):
     return out, info, nprog
 
 
-def run_go(sd, cases, nfiles=4):
-    """the same calls with the Go toolchain (only cases marked legal Go)."""
+def run_go(sd, cases, per_file=1200):
+    """the same calls with the Go toolchain (only cases marked legal Go); several small programs, 6 at a time"""
     cs = [c for c in cases if c["go"]]
     by_id = {c["id"]: c for c in cs}
-    jobs, size = [], max(1, (len(cs) + nfiles - 1) // nfiles)
-    for k in range(0, len(cs), size):
-        d = os.path.join(sd, "go%d" % (k // size))
+    jobs = []
+    for k in range(0, len(cs), per_file):
+        d = os.path.join(sd, "go%d" % (k // per_file))
         os.makedirs(d, exist_ok=True)
-        open(os.path.join(d, "main.go"), "w").write(go_program(cs[k:k + size]))
+        open(os.path.join(d, "main.go"), "w").write(go_program(cs[k:k + per_file]))
         open(os.path.join(d, "go.mod"), "w").write("module c11x\n\ngo 1.21\n")
         jobs.append(([vf.GO, "run", "."], None, d, vf.goenv({"GOFLAGS": "-mod=mod", "GOWORK": "off"})))
     out = {}
-    for (rc, so, se), j in zip(vf.run_many(jobs, nproc=nfiles, timeout=900), jobs):
-        if rc != 0:
-            raise vf.NoVerdict("Go cross-check program failed (rc=%s) in %s\n%s" % (rc, j[2], (se or "")[-3000:]))
-        out.update(parse_output(so, by_id))
+    todo = jobs
+    for attempt in (1, 2):
+        again = []
+        for (rc, so, se), j in zip(vf.run_many(todo, nproc=6, timeout=1500), todo):
+            if rc is None and attempt == 1:          # timed out (machine load): once more
+                again.append(j)
+                continue
+            if rc != 0:
+                raise vf.NoVerdict("Go cross-check program failed (rc=%s) in %s\n%s" % (rc, j[2], (se or "")[-3000:]))
+            out.update(parse_output(so, by_id))
+        todo = again
+        if not todo:
+            break
     miss = [c["id"] for c in cs if c["id"] not in out]
     if miss:
         raise vf.NoVerdict("Go cross-check produced no output for cases %s" % miss[:10])
@@ -474,7 +483,7 @@ def run_replay(chk, sd, path):
     out, info, nprog = run_ego(sd, ego, [c], 1, "replay")
     recs = io_records([c], out, "ego")
     if c["go"]:
-        gcs, gout = run_go(sd, [c], 1)
+        gcs, gout = run_go(sd, [c])
         recs += io_records(gcs, gout, "go")
     bad = judge(chk, sd, recs, "contract over the replayed call")
     if bad.get("go"):
@@ -537,7 +546,7 @@ def run():
         # 4. (concurrently) the same calls with the Go toolchain (cross-check of the spec, never a violation)
         from concurrent.futures import ThreadPoolExecutor
         with ThreadPoolExecutor(max_workers=1) as tp:
-            gofut = tp.submit(run_go, sd, cases, 8 if thorough else 4)
+            gofut = tp.submit(run_go, sd, cases)
             out, info, nprog = run_ego(sd, ego, cases, 250 if thorough else 120, "main")
             gcs, gout = gofut.result()
         recs = io_records(cases, out, "ego")
